@@ -71,6 +71,26 @@ class Plain:
         return 'Plain()'
 
 
+class IndexLike(Plain):
+    """Not an int, but offers __index__ (like a numpy integer): not a datum of any typed family."""
+
+    def __index__(self):
+        return 3
+
+    def __repr__(self):
+        return 'IndexLike(3)'
+
+
+class FloatLike(Plain):
+    """Not a float, but offers __float__ (like decimal.Decimal)."""
+
+    def __float__(self):
+        return 2.5
+
+    def __repr__(self):
+        return 'FloatLike(2.5)'
+
+
 _plain = Plain()
 
 
@@ -87,6 +107,10 @@ def materialize(x):
                 return float('inf')
             if x[1] == 'ninf':
                 return float('-inf')
+            if x[1] == 'index':
+                return IndexLike()
+            if x[1] == 'floatable':
+                return FloatLike()
             raise ValueError(x)
         return tuple(materialize(i) for i in x)
     return x
@@ -96,8 +120,8 @@ WEIRD = [
     -2**63 - 1, -2**63, -2**31 - 1, -2**31, -1, 0, 1, 2**31 - 1, 2**31, 2**32 - 1, 2**32,
     2**63 - 1, 2**63, 2**64 - 1, 2**64, 10**30, True, False,
     0.0, 1.0, 1.5, -1.5, 1e40, (TAG, 'inf'), (TAG, 'nan'),
-    '', 'a', 'ab', b'', b'ab', b'abcdef', b'abcdefg',
-    None, (), (1, 2), (TAG, 'obj'), (TAG, 'cmp'),
+    '', 'a', 'ab', '1.5', b'', b'ab', b'abcdef', b'abcdefg',
+    None, (), (1, 2), (TAG, 'obj'), (TAG, 'cmp'), (TAG, 'index'), (TAG, 'floatable'),
 ]
 
 
@@ -222,8 +246,10 @@ def alphabet(ctx, keys, grid, vals):
     writes = []
     vwrites = []
     for w in WEIRD:
-        if w == (TAG, 'nan') and ctx.fam[0] == 'O':
-            # nan is not orderable: outside the object-key domain (as a VALUE it stays in)
+        if w in ((TAG, 'nan'), (TAG, 'index'), (TAG, 'floatable')) and ctx.fam[0] == 'O':
+            # nan is not orderable: outside the object-key domain (as a VALUE it stays in);
+            # the conversion-protocol objects are meant for the typed slots (as object keys
+            # they are just default-comparison objects again)
             kreads, kwrites = [], []
         else:
             kreads, kwrites = reads, writes
